@@ -84,6 +84,7 @@ impl Prop for C19 {
     vec![
       Leg { name: "rope programs", source: Cases::Generated(Box::new(rope_case), 150_000, 2_500_000) },
       Leg { name: "wild trees", source: Cases::Generated(Box::new(tree_case), 150_000, 2_500_000) },
+      Leg { name: "SourceMapSource with a line longer than 64 KiB", source: Cases::Generated(Box::new(|| crate::gen::huge_line_tree().prop_map(Case::Tree).boxed()), 400, 6_000) },
       Leg {
         name: "programs x schedules",
         source: Cases::Generated(Box::new(|| c18::random_case().prop_map(Case::Sched).boxed()), 8_000, 150_000),
